@@ -298,7 +298,7 @@ def check(ctx, rep):
     # its next wait(), or the wake-up of a shutdown is lost and join() never returns
     rep.rule("R-WAKE-L", "per worker-loop iteration (cyclically): everything the iteration reads -- including the shutdown flags -- is read again between clear() of the loop's event and the next wait()")
     from .. import wake
-    wake.check_loops(ctx, rep, wake.discover(ctx))
+    wake.check_loops(ctx, rep, wake.discover(ctx), components="flags")
 
     # ----------------------------------------------------------- R-LOOPWRAP
     inner = [f for f in loopwrap.nested.values()]
